@@ -4,6 +4,9 @@ pub mod std_gaps {
     verus! {
     /// number of bytes of the UTF-8 encoding of a char (vstd's specification of char::len_utf8)
     pub open spec fn utf8_len(c: char) -> nat { c.len_utf8() as nat }
+    /// std gap (ASSUMED): UTF-16 length of a char
+    pub assume_specification[ char::len_utf16 ](c: char) -> (r: usize)
+        ensures r == (if (c as u32) >= 0x10000 { 2usize } else { 1usize });
     pub assume_specification<T: core::cmp::Ord>[ core::cmp::max ](a: T, b: T) -> (r: T)
         ensures
             <T as vstd::std_specs::cmp::OrdSpec>::obeys_cmp_spec() ==> r == (if vstd::std_specs::cmp::OrdSpec::cmp_spec(&a, &b) == core::cmp::Ordering::Greater { a } else { b });
